@@ -6,6 +6,45 @@ From DictIO Require Import Chars Str Value Scalar KeyPath SDict Layout Lexer Tok
 Import ListNotations.
 
 (* ================================================================================================ *)
+(* insert_result (the repaired re-insertion loop) and insert_literal                                *)
+(* ================================================================================================ *)
+Lemma insert_result_S : forall f ph v d,
+  insert_result (S f) ph v d =
+  match find_global_key ph d with
+  | Some p => bind (set_global_key d p v) (fun d' => if contains ph (py_str_tree v) then Ok d' else insert_result f ph v d')
+  | None => Ok d
+  end.
+Proof. reflexivity. Qed.
+
+(* a value that does not spell the placeholder: the repaired loop is the old one *)
+Lemma insert_result_literal : forall fuel ph v d, contains ph (py_str_tree v) = false ->
+  insert_result fuel ph v d = insert_literal fuel ph v d.
+Proof.
+  induction fuel as [|f IH]; intros ph v d H; [reflexivity|].
+  rewrite insert_result_S. cbn [insert_literal]. destruct (find_global_key ph d) as [p|]; [|reflexivity].
+  destruct (set_global_key d p v) as [d'|e]; cbn [bind]; [|reflexivity]. rewrite H. apply IH. exact H.
+Qed.
+
+(* on flat data the placeholder leaf is overwritten, whether or not the inserted text spells the placeholder *)
+Lemma insert_result_flat : forall (l1 l2 : list (key * tree)) (k : key) (ph : str) (sv : scalar),
+  NoDup (map fst (l1 ++ (k, Leaf (SStr ph)) :: l2)) ->
+  Forall (flat_leaf_free ph) (l1 ++ l2) ->
+  insert_result (S (count_leaves (Dict (l1 ++ (k, Leaf (SStr ph)) :: l2)))) ph (Leaf sv)
+                (Dict (l1 ++ (k, Leaf (SStr ph)) :: l2))
+  = Ok (Dict (l1 ++ (k, Leaf sv) :: l2)).
+Proof.
+  intros l1 l2 k ph sv Hnd Hf.
+  destruct (contains ph (py_str_tree (Leaf sv))) eqn:Ec.
+  - rewrite insert_result_S.
+    assert (Hfind : find_global_key ph (Dict (l1 ++ (k, Leaf (SStr ph)) :: l2)) = Some [k]).
+    { unfold find_global_key. rewrite (find_key_dict_one ph l1 l2 k Hf). reflexivity. }
+    rewrite Hfind. unfold set_global_key. cbn [set_at set_child bind]. rewrite Ec. rewrite aset_mid; [reflexivity|].
+    rewrite map_app in Hnd. cbn [map fst] in Hnd. pose proof (NoDup_remove_2 _ _ _ Hnd) as Hn.
+    intro Hin. apply Hn. apply in_or_app. left. exact Hin.
+  - rewrite (insert_result_literal _ ph (Leaf sv) _ Ec). apply insert_literal_flat; [exact Hnd | exact Hf | exact Ec].
+Qed.
+
+(* ================================================================================================ *)
 (* The while loop: its fuel is never the reason for stopping                                        *)
 (* ================================================================================================ *)
 
@@ -69,7 +108,7 @@ Proof.
   - exact (IH e E).
 Qed.
 
-(* ... and a pass raises only what insert_literal raises *)
+(* ... and a pass raises only what insert_result raises *)
 Definition pass_step (resolved : list (str * tree)) (acc : option (res sdict)) (e : N * expr_entry) : option (res sdict) :=
   match acc with
   | Some (Ok st) =>
@@ -90,7 +129,7 @@ Definition pass_step (resolved : list (str * tree)) (acc : option (res sdict)) (
       match outcome with
       | None => None
       | Some (Some v) =>
-          match insert_literal (S (count_leaves (Dict (sd_data st)))) ph v (Dict (sd_data st)) with
+          match insert_result (S (count_leaves (Dict (sd_data st)))) ph v (Dict (sd_data st)) with
           | Ok (Dict d') => Some (Ok (mkSD d' (sd_lc st) (sd_bc st) (sd_inc st) (tdel key (sd_expr st))))
           | Ok _ => Some (Ok st)
           | Raise er => Some (Raise er)
@@ -107,41 +146,41 @@ Proof. reflexivity. Qed.
 
 Lemma pass_fold_raise : forall resolved l acc e,
   fold_left (pass_step resolved) l acc = Some (Raise e) ->
-  acc = Some (Raise e) \/ exists fuel ph v d, insert_literal fuel ph v d = Raise e.
+  acc = Some (Raise e) \/ exists fuel ph v d, insert_result fuel ph v d = Raise e.
 Proof.
   intros resolved. induction l as [|[key [e0 ph]] l IH]; intros acc e H; cbn [fold_left] in H; [left; exact H|].
   apply IH in H. destruct H as [H|H]; [|right; exact H].
   destruct acc as [[st|e1]|]; cbn [pass_step] in H; [|left; exact H|discriminate].
   destruct (if is_plain_reference (strip e0) then rlookup (strip e0) resolved else None) as [t|].
-  - destruct (insert_literal (S (count_leaves (Dict (sd_data st)))) ph t (Dict (sd_data st))) as [[| |]|er] eqn:Ei;
+  - destruct (insert_result (S (count_leaves (Dict (sd_data st)))) ph t (Dict (sd_data st))) as [[| |]|er] eqn:Ei;
       try discriminate.
     right. inversion H; subst. eauto.
   - destruct (has_char c_dollar (substitute resolved e0)); [discriminate|].
     destruct (pyeval (substitute resolved e0)) as [z| |]; try discriminate.
-    destruct (insert_literal (S (count_leaves (Dict (sd_data st)))) ph (Leaf (SInt z)) (Dict (sd_data st))) as [[| |]|er] eqn:Ei;
+    destruct (insert_result (S (count_leaves (Dict (sd_data st)))) ph (Leaf (SInt z)) (Dict (sd_data st))) as [[| |]|er] eqn:Ei;
       try discriminate.
     right. inversion H; subst. eauto.
 Qed.
 
 Lemma eval_pass_raise : forall resolved s e, eval_pass resolved s = Some (Raise e) ->
-  exists fuel ph v d, insert_literal fuel ph v d = Raise e.
+  exists fuel ph v d, insert_result fuel ph v d = Raise e.
 Proof.
   intros resolved s e H. rewrite eval_pass_fold in H. apply pass_fold_raise in H.
   destruct H as [H|H]; [discriminate | exact H].
 Qed.
 
-Lemma back_insert_raise : forall s e, back_insert s = Raise e -> exists fuel ph v d, insert_literal fuel ph v d = Raise e.
+Lemma back_insert_raise : forall s e, back_insert s = Raise e -> exists fuel ph v d, insert_result fuel ph v d = Raise e.
 Proof.
   intros s e H. unfold back_insert in H.
   set (step := fun (acc : res (list (key * tree))) (e : N * expr_entry) =>
                  bind acc (fun d => let '(_, (expression, ph)) := e in
-                   bind (insert_literal (S (count_leaves (Dict d))) ph (Leaf (SStr expression)) (Dict d))
+                   bind (insert_result (S (count_leaves (Dict d))) ph (Leaf (SStr expression)) (Dict d))
                         (fun t => match t with Dict d' => Ok d' | _ => Ok d end))) in H.
-  assert (G : forall l acc, fold_left step l acc = Raise e -> acc = Raise e \/ exists fuel ph v d, insert_literal fuel ph v d = Raise e).
+  assert (G : forall l acc, fold_left step l acc = Raise e -> acc = Raise e \/ exists fuel ph v d, insert_result fuel ph v d = Raise e).
   { induction l as [|[key [e0 ph]] l IH]; intros acc Hf; cbn [fold_left] in Hf; [left; exact Hf|].
     apply IH in Hf. destruct Hf as [Hf|Hf]; [|right; exact Hf].
     destruct acc as [d|e1]; [|left; exact Hf]. unfold step in Hf. cbn [bind] in Hf.
-    destruct (insert_literal (S (count_leaves (Dict d))) ph (Leaf (SStr e0)) (Dict d)) as [[| |]|er] eqn:Ei;
+    destruct (insert_result (S (count_leaves (Dict d))) ph (Leaf (SStr e0)) (Dict d)) as [[| |]|er] eqn:Ei;
       cbn [bind] in Hf; try discriminate.
     right. inversion Hf; subst. eauto. }
   destruct (fold_left step (sd_expr s) (Ok (sd_data s))) as [d|e1] eqn:Ef; cbn [bind] in H; [discriminate|].
@@ -149,7 +188,7 @@ Proof.
 Qed.
 
 (* the loop of eval_expressions never runs out of fuel: whatever it answers is the answer of the fuel-free loop, and
-   an exception (E_Fuel included) in the result of eval_expressions was raised by some insert_literal call *)
+   an exception (E_Fuel included) in the result of eval_expressions was raised by some insert_result call *)
 Lemma eval_expressions_loop : forall s resolved u,
   resolve_all s = Some (resolved, u) ->
   loop_rel s resolved u (eval_loop (S (S u)) s resolved u) /\
@@ -161,7 +200,7 @@ Proof.
 Qed.
 
 Lemma eval_expressions_raise : forall s e, eval_expressions s = Some (Raise e) ->
-  exists fuel ph v d, insert_literal fuel ph v d = Raise e.
+  exists fuel ph v d, insert_result fuel ph v d = Raise e.
 Proof.
   intros s e H. unfold eval_expressions in H.
   destruct (resolve_all s) as [[resolved u]|] eqn:Er; [|discriminate].
@@ -269,7 +308,7 @@ Lemma unresolved_kept_one : forall d lc bc inc key e ph,
   has_char c_dollar e = true ->
   Forall (fun r => alookup (KS (ref_name r)) (variables_of (mkSD d lc bc inc [(key, (e, ph))])) = None) (expr_refs_of e) ->
   eval_expressions (mkSD d lc bc inc [(key, (e, ph))]) =
-  Some (match insert_literal (S (count_leaves (Dict d))) ph (Leaf (SStr e)) (Dict d) with
+  Some (match insert_result (S (count_leaves (Dict d))) ph (Leaf (SStr e)) (Dict d) with
         | Ok (Dict d') => Ok (mkSD d' lc bc inc [])
         | Ok _ => Ok (mkSD d lc bc inc [])
         | Raise er => Raise er
@@ -278,7 +317,7 @@ Proof.
   intros d lc bc inc key e ph Hd Hu.
   rewrite unresolved_kept_all.
   - unfold back_insert. cbn [sd_expr sd_data sd_lc sd_bc sd_inc fold_left bind].
-    destruct (insert_literal (S (count_leaves (Dict d))) ph (Leaf (SStr e)) (Dict d)) as [[| |]|er]; reflexivity.
+    destruct (insert_result (S (count_leaves (Dict d))) ph (Leaf (SStr e)) (Dict d)) as [[| |]|er]; reflexivity.
   - cbn [sd_expr map fst]. constructor; [intros []|constructor].
   - cbn [sd_expr]. constructor; [exact Hd|constructor].
   - cbn [sd_expr all_refs flat_map fst snd]. rewrite app_nil_r. exact Hu.
@@ -304,7 +343,7 @@ Qed.
 
 Definition inserted (d : list (key * tree)) (lc bc : list (N * str)) (inc : list (N * include_entry))
            (ph : str) (v : tree) : res sdict :=
-  match insert_literal (S (count_leaves (Dict d))) ph v (Dict d) with
+  match insert_result (S (count_leaves (Dict d))) ph v (Dict d) with
   | Ok (Dict d') => Ok (mkSD d' lc bc inc [])
   | Ok _ => Ok (mkSD d lc bc inc [])
   | Raise er => Raise er
@@ -313,17 +352,17 @@ Definition inserted (d : list (key * tree)) (lc bc : list (N * str)) (inc : list
 Lemma one_entry_value : forall d lc bc inc key e ph resolved u v,
   resolve_all (mkSD d lc bc inc [(key, (e, ph))]) = Some (resolved, u) ->
   pass_step resolved (Some (Ok (mkSD d lc bc inc [(key, (e, ph))]))) (key, (e, ph)) =
-    match insert_literal (S (count_leaves (Dict d))) ph v (Dict d) with
+    match insert_result (S (count_leaves (Dict d))) ph v (Dict d) with
     | Ok (Dict d') => Some (Ok (mkSD d' lc bc inc (tdel key [(key, (e, ph))])))
     | Ok _ => Some (Ok (mkSD d lc bc inc [(key, (e, ph))]))
     | Raise er => Some (Raise er)
     end ->
-  (forall t, insert_literal (S (count_leaves (Dict d))) ph v (Dict d) = Ok t -> exists d', t = Dict d') ->
+  (forall t, insert_result (S (count_leaves (Dict d))) ph v (Dict d) = Ok t -> exists d', t = Dict d') ->
   eval_expressions (mkSD d lc bc inc [(key, (e, ph))]) = Some (inserted d lc bc inc ph v).
 Proof.
   intros d lc bc inc key e ph resolved u v Hr Hp Hd. unfold eval_expressions. rewrite Hr.
   cbn [eval_loop]. rewrite eval_pass_fold. cbn [sd_expr fold_left]. rewrite Hp. unfold inserted.
-  destruct (insert_literal (S (count_leaves (Dict d))) ph v (Dict d)) as [t|er] eqn:Ei; [|reflexivity].
+  destruct (insert_result (S (count_leaves (Dict d))) ph v (Dict d)) as [t|er] eqn:Ei; [|reflexivity].
   destruct (Hd t eq_refl) as [d' Et]. subst t.
   cbn [tdel]. rewrite N.eqb_refl. rewrite resolve_all_empty.
   change (match (if Nat.ltb 0 u then eval_loop (S u) (mkSD d' lc bc inc []) [] 0 else Some (Ok (mkSD d' lc bc inc []))) with
@@ -334,20 +373,27 @@ Proof.
   rewrite (eval_loop_after_last (S (S u)) (S u)) by lia. reflexivity.
 Qed.
 
-Lemma insert_literal_dict : forall fuel ph v t t', insert_literal fuel ph v t = Ok t' ->
-  (exists d, t = Dict d) -> exists d', t' = Dict d'.
+Lemma set_global_key_dict : forall d p v t1, set_global_key (Dict d) p v = Ok t1 -> exists d', t1 = Dict d'.
 Proof.
-  induction fuel as [|f IH]; intros ph v t t' H Hd; cbn [insert_literal] in H; [discriminate|].
-  destruct (find_global_key ph t) as [p|] eqn:Ef; [|inversion H; subst; exact Hd].
-  destruct (set_global_key t p v) as [t1|er] eqn:Es; cbn [bind] in H; [|discriminate].
-  apply (IH ph v t1 t' H). destruct Hd as [d Ed]. subst t.
-  unfold set_global_key in Es. destruct p as [|k p]; cbn [set_at] in Es; [inversion Es; eauto|].
+  intros d p v t1 Es. unfold set_global_key in Es. destruct p as [|k p]; cbn [set_at] in Es; [inversion Es; eauto|].
   destruct p as [|k2 p].
   - cbn [set_child] in Es. inversion Es. eauto.
   - destruct (child (Dict d) k) as [c|]; cbn [bind] in Es; [|discriminate].
     destruct (negb (is_container c)); [discriminate|]. destruct (Nat.eqb 1 10); [discriminate|].
     destruct (set_at c (k2 :: p) v 1) as [c'|]; cbn [bind] in Es; [|discriminate].
     cbn [set_child] in Es. inversion Es. eauto.
+Qed.
+
+Lemma insert_result_dict : forall fuel ph v t t', insert_result fuel ph v t = Ok t' ->
+  (exists d, t = Dict d) -> exists d', t' = Dict d'.
+Proof.
+  induction fuel as [|f IH]; intros ph v t t' H Hd; [discriminate|]. rewrite insert_result_S in H.
+  destruct (find_global_key ph t) as [p|] eqn:Ef; [|inversion H; subst; exact Hd].
+  destruct (set_global_key t p v) as [t1|er] eqn:Es; cbn [bind] in H; [|discriminate].
+  assert (Hd1 : exists d1, t1 = Dict d1).
+  { destruct Hd as [d Ed]. subst t. eapply set_global_key_dict. exact Es. }
+  destruct (contains ph (py_str_tree v)); [inversion H; subst; exact Hd1|].
+  apply (IH ph v t1 t' H Hd1).
 Qed.
 
 (* a plain reference (possibly indexed) takes the value -- and type -- the reference resolves to *)
@@ -360,8 +406,8 @@ Proof.
   intros d lc bc inc key e ph resolved u t Hr Hp Hl.
   apply (one_entry_value d lc bc inc key e ph resolved u t Hr).
   - cbn [pass_step sd_data sd_lc sd_bc sd_inc sd_expr]. rewrite Hp, Hl.
-    destruct (insert_literal (S (count_leaves (Dict d))) ph t (Dict d)) as [[| |]|]; reflexivity.
-  - intros t' Hi. eapply insert_literal_dict; [exact Hi | eauto].
+    destruct (insert_result (S (count_leaves (Dict d))) ph t (Dict d)) as [[| |]|]; reflexivity.
+  - intros t' Hi. eapply insert_result_dict; [exact Hi | eauto].
 Qed.
 
 (* an expression all of whose references are resolved takes the result of evaluating the substituted text *)
@@ -375,8 +421,8 @@ Proof.
   intros d lc bc inc key e ph resolved u z Hr Hp Hd He.
   apply (one_entry_value d lc bc inc key e ph resolved u (Leaf (SInt z)) Hr).
   - cbn [pass_step sd_data sd_lc sd_bc sd_inc sd_expr]. rewrite Hp, Hd, He.
-    destruct (insert_literal (S (count_leaves (Dict d))) ph (Leaf (SInt z)) (Dict d)) as [[| |]|]; reflexivity.
-  - intros t' Hi. eapply insert_literal_dict; [exact Hi | eauto].
+    destruct (insert_result (S (count_leaves (Dict d))) ph (Leaf (SInt z)) (Dict d)) as [[| |]|]; reflexivity.
+  - intros t' Hi. eapply insert_result_dict; [exact Hi | eauto].
 Qed.
 
 (* ================================================================================================ *)
@@ -668,7 +714,7 @@ Lemma pass_step_eval : forall res st key e0 ph z d',
   is_plain_reference (strip e0) = false ->
   has_char c_dollar (substitute res e0) = false ->
   pyeval (substitute res e0) = EvInt z ->
-  insert_literal (S (count_leaves (Dict (sd_data st)))) ph (Leaf (SInt z)) (Dict (sd_data st)) = Ok (Dict d') ->
+  insert_result (S (count_leaves (Dict (sd_data st)))) ph (Leaf (SInt z)) (Dict (sd_data st)) = Ok (Dict d') ->
   pass_step res (Some (Ok st)) (key, (e0, ph)) =
   Some (Ok (mkSD d' (sd_lc st) (sd_bc st) (sd_inc st) (tdel key (sd_expr st)))).
 Proof.
@@ -918,7 +964,7 @@ Section FlatDoc.
                     | rewrite Hsub; unfold rho'; apply pyeval_render_in; [exact Hg|];
                       intros y Hy; apply known_all_iff with (y := y) in Eka; [|exact Hy];
                       destruct Eka as [w Ew]; unfold env_of; rewrite Ew; reflexivity
-                    | cbn [sd_data]; apply insert_literal_flat ].
+                    | cbn [sd_data]; apply insert_result_flat ].
                 -- cbn [sd_lc sd_bc sd_inc sd_expr]. rewrite (tdel_mid _ _ i _ HT1).
                    unfold mixed. rewrite fdata_app, ftable_app.
                    cbn [fdata ftable flat_map map fentry fst snd fleaf app]. rewrite Hkx.
@@ -936,7 +982,6 @@ Section FlatDoc.
                       ** intro E. subst j. apply Hi2. eapply fexp_ids_in. exact Hy.
                       ** assert (Hy' : In (y, FExp j g' a') d) by (rewrite Hd; apply in_or_app; right; right; exact Hy).
                          apply (fexp_in _ _ _ _ Hy').
-                -- cbn [py_str]. apply ph_not_in_int.
               * (* something is still unresolved: the partly substituted text is stored *)
                 assert (Hkx : k' x = None).
                 { rewrite (Hk'_new x i g a Hin Ek), Eka. reflexivity. }
@@ -1160,7 +1205,7 @@ Section FlatDoc.
   Definition bi_step (acc : res (list (key * tree))) (e : N * expr_entry) : res (list (key * tree)) :=
     bind acc (fun dd =>
       let '(_, (expression, ph)) := e in
-      bind (insert_literal (S (count_leaves (Dict dd))) ph (Leaf (SStr expression)) (Dict dd))
+      bind (insert_result (S (count_leaves (Dict dd))) ph (Leaf (SStr expression)) (Dict dd))
            (fun t => match t with Dict d' => Ok d' | _ => Ok dd end)).
 
   Lemma back_insert_fold : forall s,
@@ -1204,7 +1249,7 @@ Section FlatDoc.
         { pose proof Hids as H. rewrite Hd, fexp_ids_app in H. exact H. }
         assert (Hi2 : ~ In i (fexp_ids d2)).
         { intro H. apply NoDup_remove_2 in Hids'. apply Hids'. apply in_or_app. right. exact H. }
-        rewrite insert_literal_flat; [reflexivity | | |].
+        rewrite insert_result_flat; [reflexivity | |].
         - assert (E : map fst (final_data rho k d1 ++ (KS x, Leaf (SStr (ph_of i))) :: fdata d2 k) = map KS (map fst d)).
           { rewrite Hd. rewrite map_app. cbn [map fst]. rewrite final_data_keys, fdata_keys. rewrite !map_app. reflexivity. }
           rewrite E. apply NoDup_map_KS. exact Hnames.
@@ -1213,8 +1258,7 @@ Section FlatDoc.
           + apply fdata_leaf_free; [exact Hi|]. intros y j g' a' Hy. split.
             * intro E. subst j. apply Hi2. eapply fexp_ids_in. exact Hy.
             * assert (Hy' : In (y, FExp j g' a') d) by (rewrite Hd; apply in_or_app; right; right; exact Hy).
-              apply (fexp_in _ _ _ _ Hy').
-        - cbn [py_str]. apply render_no_placeholder; [exact Hg | exact Hw | exact (Hfree x i g a Hin)]. }
+              apply (fexp_in _ _ _ _ Hy'). }
       rewrite Hstep. apply IH. exact Hd'.
   Qed.
 
@@ -1457,3 +1501,678 @@ End Acyclic.
 Lemma loop_terminates : forall f s resolved u, (S u <= f)%nat ->
   eval_loop f s resolved u = eval_loop (S u) s resolved u /\ loop_rel s resolved u (eval_loop f s resolved u).
 Proof. intros f s resolved u H. split; [apply eval_loop_fuel | apply eval_loop_rel]; exact H. Qed.
+
+(* ================================================================================================ *)
+(* The re-insertion loop terminates                                                                 *)
+(* ================================================================================================ *)
+(* number of leaves whose text contains the placeholder *)
+Fixpoint bad (ph : str) (t : tree) : nat :=
+  match t with
+  | Leaf s => if contains ph (py_str s) then 1%nat else 0%nat
+  | Dict kvs => fold_right (fun kv n => (bad ph (snd kv) + n)%nat) 0%nat kvs
+  | Lst ts => fold_right (fun c n => (bad ph c + n)%nat) 0%nat ts
+  end.
+
+Lemma bad_le_leaves : forall ph t, (bad ph t <= count_leaves t)%nat.
+Proof.
+  intros ph. induction t as [s|kvs IH|ts IH] using tree_ind'.
+  - cbn [bad count_leaves]. destruct (contains ph (py_str s)); lia.
+  - cbn [bad count_leaves]. induction IH as [|kv l Hk Hl IHl]; cbn [fold_right]; lia.
+  - cbn [bad count_leaves]. induction IH as [|c l Hc Hl IHl]; cbn [fold_right]; lia.
+Qed.
+
+Lemma bad_aset : forall ph k x kvs c, alookup k kvs = Some c ->
+  (bad ph (Dict (aset k x kvs)) + bad ph c = bad ph (Dict kvs) + bad ph x)%nat.
+Proof.
+  intros ph k x. induction kvs as [|[k1 c1] l IH]; intros c H; cbn [alookup] in H; [discriminate|].
+  cbn [aset]. destruct (key_eqb k k1).
+  - inversion H; subst. cbn [bad fold_right snd]. lia.
+  - specialize (IH c H). cbn [bad fold_right snd] in *. lia.
+Qed.
+
+Lemma bad_set_nth : forall ph x i ts c, nth_error ts i = Some c ->
+  (bad ph (Lst (set_nth i x ts)) + bad ph c = bad ph (Lst ts) + bad ph x)%nat.
+Proof.
+  intros ph x. induction i as [|i IH]; intros [|c1 l] c H; cbn [nth_error] in H; try discriminate.
+  - inversion H; subst. cbn [set_nth bad fold_right]. lia.
+  - specialize (IH l c H). cbn [set_nth bad fold_right] in *. lia.
+Qed.
+
+Lemma bad_set_child : forall ph t k x t' c, child t k = Ok c -> set_child t k x = Ok t' ->
+  (bad ph t' + bad ph c = bad ph t + bad ph x)%nat.
+Proof.
+  intros ph t k x t' c Hc Hs. destruct t as [s|kvs|ts]; cbn [child set_child] in *; [discriminate| |].
+  - destruct (alookup k kvs) as [c0|] eqn:Ea; [|discriminate]. inversion Hc; subst c0. inversion Hs; subst t'.
+    apply bad_aset. exact Ea.
+  - destruct k as [z|s]; [|discriminate]. destruct (norm_index z (length ts)) as [i|]; [|discriminate].
+    destruct (nth_error ts i) as [c0|] eqn:En; [|discriminate]. inversion Hc; subst c0. inversion Hs; subst t'.
+    apply bad_set_nth. exact En.
+Qed.
+
+Lemma bad_set_at : forall ph v p t ii t' old, p <> [] -> get_path t p = Some old -> set_at t p v ii = Ok t' ->
+  (bad ph t' + bad ph old = bad ph t + bad ph v)%nat.
+Proof.
+  intros ph v. induction p as [|k p IH]; intros t ii t' old Hne Hg Hs; [contradiction|].
+  cbn [get_path] in Hg. destruct (child t k) as [c|e] eqn:Ec; [|discriminate].
+  apply set_at_inv in Hs. destruct Hs as [x [Hsc [[Hp Hx]|[Hp [c' [Ec' Hs']]]]]].
+  - subst p x. cbn [get_path] in Hg. inversion Hg; subst old. eapply bad_set_child; eassumption.
+  - rewrite Ec in Ec'. inversion Ec'; subst c'.
+    pose proof (IH c (S ii) x old Hp Hg Hs') as H1. pose proof (bad_set_child ph t k x t' c Ec Hsc) as H2. lia.
+Qed.
+
+(* well-formedness is kept *)
+Lemma wf_child : forall t k c, wf t = true -> child t k = Ok c -> wf c = true.
+Proof.
+  intros t k c Hw Hc. destruct t as [s|kvs|ts]; cbn [child] in Hc; [discriminate| |].
+  - destruct (alookup k kvs) as [c0|] eqn:Ea; [|discriminate]. inversion Hc; subst c0.
+    apply (wf_dict_child kvs k c Hw). apply SDictProofs.alookup_Some_In. exact Ea.
+  - destruct k as [z|s]; [|discriminate]. destruct (norm_index z (length ts)) as [i|]; [|discriminate].
+    destruct (nth_error ts i) as [c0|] eqn:En; [|discriminate]. inversion Hc; subst c0.
+    rewrite wf_lst in Hw. rewrite forallb_forall in Hw. apply Hw. eapply nth_error_In. exact En.
+Qed.
+
+Lemma forallb_set_nth : forall {A} (f : A -> bool) i x l, f x = true -> forallb f l = true -> forallb f (set_nth i x l) = true.
+Proof.
+  intros A f. induction i as [|i IH]; intros x [|y l] Hx Hl; cbn [set_nth forallb] in *; try reflexivity.
+  - apply andb_true_iff in Hl. rewrite Hx. cbn [andb]. apply Hl.
+  - apply andb_true_iff in Hl. destruct Hl as [H1 H2]. rewrite H1. apply IH; assumption.
+Qed.
+
+Lemma wf_set_child : forall t k x t', wf t = true -> wf x = true -> set_child t k x = Ok t' -> wf t' = true.
+Proof.
+  intros t k x t' Hw Hx Hs. destruct t as [s|kvs|ts]; cbn [set_child] in Hs; [discriminate| |].
+  - inversion Hs; subst. apply aset_wf; assumption.
+  - destruct k as [z|s]; [|discriminate]. destruct (norm_index z (length ts)) as [i|]; [|discriminate].
+    inversion Hs; subst. rewrite wf_lst in *. apply forallb_set_nth; assumption.
+Qed.
+
+Lemma wf_set_at : forall v p t ii t', wf t = true -> wf v = true -> set_at t p v ii = Ok t' -> wf t' = true.
+Proof.
+  intros v. induction p as [|k p IH]; intros t ii t' Hw Hv Hs; [cbn [set_at] in Hs; inversion Hs; subst; exact Hw|].
+  apply set_at_inv in Hs. destruct Hs as [x [Hsc [[Hp Hx]|[Hp [c [Ec Hs']]]]]].
+  - subst x. apply (wf_set_child t k v t' Hw Hv Hsc).
+  - apply (wf_set_child t k x t' Hw); [|exact Hsc]. apply (IH c (S ii) x); [apply (wf_child t k c Hw Ec) | exact Hv | exact Hs'].
+Qed.
+
+(* set_global_key raises KeyError / IndexError / RecursionError, never the model's E_Fuel *)
+Lemma child_not_fuel : forall t k, child t k <> Raise E_Fuel.
+Proof.
+  intros t k. destruct t as [s|kvs|ts]; cbn [child]; [discriminate| |].
+  - destruct (alookup k kvs); discriminate.
+  - destruct k as [z|s]; [|discriminate]. destruct (norm_index z (length ts)) as [i|]; [|discriminate].
+    destruct (nth_error ts i); discriminate.
+Qed.
+Lemma set_child_not_fuel : forall t k x, set_child t k x <> Raise E_Fuel.
+Proof.
+  intros t k x. destruct t as [s|kvs|ts]; cbn [set_child]; [discriminate|discriminate|].
+  destruct k as [z|s]; [|discriminate]. destruct (norm_index z (length ts)); discriminate.
+Qed.
+Lemma set_at_not_fuel : forall v p t ii, set_at t p v ii <> Raise E_Fuel.
+Proof.
+  intros v. induction p as [|k p IH]; intros t ii; [cbn [set_at]; discriminate|].
+  destruct p as [|k2 p]; [cbn [set_at]; apply set_child_not_fuel|].
+  change (set_at t (k :: k2 :: p) v ii) with
+    (bind (child t k) (fun c => if negb (is_container c) then Raise E_Key
+                                else if Nat.eqb (S ii) 10 then Raise E_Recursion
+                                else bind (set_at c (k2 :: p) v (S ii)) (fun c' => set_child t k c'))).
+  pose proof (child_not_fuel t k) as Hc. destruct (child t k) as [c|e]; cbn [bind]; [|exact Hc].
+  destruct (negb (is_container c)); [discriminate|]. destruct (Nat.eqb (S ii) 10); [discriminate|].
+  pose proof (IH c (S ii)) as Hs. destruct (set_at c (k2 :: p) v (S ii)) as [c'|e]; cbn [bind]; [apply set_child_not_fuel | exact Hs].
+Qed.
+
+Lemma find_global_nonempty : forall ph d p, find_global_key ph d = Some p -> p <> [].
+Proof.
+  intros ph d p H. unfold find_global_key in H. destruct d as [s|kvs|ts]; [discriminate| |].
+  - destruct (find_key ph (Dict kvs)) as [[|k0 p0]|]; [discriminate | inversion H; discriminate | discriminate].
+  - destruct (find_key ph (Lst ts)) as [[|k0 p0]|]; [discriminate | inversion H; discriminate | discriminate].
+Qed.
+
+(* one round: a leaf that contains the placeholder is overwritten *)
+Lemma insert_round : forall ph v d p d', wf d = true -> wf v = true ->
+  find_global_key ph d = Some p -> set_global_key d p v = Ok d' ->
+  wf d' = true /\ (bad ph d' + 1 = bad ph d + bad ph v)%nat.
+Proof.
+  intros ph v d p d' Hw Hv Hf Hs. split; [apply (wf_set_at v p d 0%nat d' Hw Hv Hs)|].
+  destruct (find_sound ph d p Hw Hf) as [s [Hg Hc]].
+  pose proof (bad_set_at ph v p d 0%nat d' (Leaf s) (find_global_nonempty ph d p Hf) Hg Hs) as H.
+  cbn [bad] in H. rewrite Hc in H. exact H.
+Qed.
+
+Lemma insert_result_wf : forall fuel ph v d d', wf d = true -> wf v = true ->
+  insert_result fuel ph v d = Ok d' -> wf d' = true.
+Proof.
+  induction fuel as [|f IH]; intros ph v d d' Hw Hv H; [discriminate|]. rewrite insert_result_S in H.
+  destruct (find_global_key ph d) as [p|] eqn:Ef; [|inversion H; subst; exact Hw].
+  destruct (set_global_key d p v) as [d1|e] eqn:Es; cbn [bind] in H; [|discriminate].
+  destruct (insert_round ph v d p d1 Hw Hv Ef Es) as [Hw1 _].
+  destruct (contains ph (py_str_tree v)); [inversion H; subst; exact Hw1|]. apply (IH ph v d1 d' Hw1 Hv H).
+Qed.
+
+Lemma insert_result_no_fuel_gen : forall fuel ph v d, wf d = true -> wf v = true ->
+  (contains ph (py_str_tree v) = true \/ bad ph v = 0%nat) -> (bad ph d < fuel)%nat ->
+  insert_result fuel ph v d <> Raise E_Fuel.
+Proof.
+  induction fuel as [|f IH]; intros ph v d Hw Hv Hd Hlt; [lia|]. rewrite insert_result_S.
+  destruct (find_global_key ph d) as [p|] eqn:Ef; [|discriminate].
+  pose proof (set_at_not_fuel v p d 0%nat) as Hnf. fold (set_global_key d p v) in Hnf.
+  destruct (set_global_key d p v) as [d1|e] eqn:Es; cbn [bind]; [|exact Hnf].
+  destruct (contains ph (py_str_tree v)) eqn:Ec; [discriminate|].
+  destruct Hd as [Hd|Hd]; [discriminate|].
+  destruct (insert_round ph v d p d1 Hw Hv Ef Es) as [Hw1 Hb].
+  apply IH; [exact Hw1 | exact Hv | right; exact Hd | lia].
+Qed.
+
+(* ---- a placeholder of ordinary characters: a value one of whose leaves contains it spells it ------------- *)
+Definition plain_char (c : cp) : bool :=
+  (32 <=? c)%N && negb (c =? 127)%N && negb (c =? c_bsl)%N && negb (c =? c_sq)%N && negb (c =? c_dq)%N.
+Definition plain_ph (ph : str) : bool := forallb plain_char ph.
+
+Lemma repr_char_plain : forall q c, plain_char c = true -> (q = c_sq \/ q = c_dq) -> repr_char q c = [c].
+Proof.
+  intros q c H Hq. unfold plain_char in H. unfold repr_char.
+  assert (E1 : (c =? c_bsl)%N = false) by (destruct (c =? c_bsl)%N; [rewrite !andb_false_r in H; discriminate H | reflexivity]).
+  assert (E2 : (c =? q)%N = false).
+  { destruct Hq; subst q.
+    - destruct (c =? c_sq)%N; [rewrite !andb_false_r in H; discriminate H | reflexivity].
+    - destruct (c =? c_dq)%N; [rewrite !andb_false_r in H; discriminate H | reflexivity]. }
+  rewrite E1, E2.
+  assert (H32 : (32 <=? c)%N = true) by (destruct (32 <=? c)%N; [reflexivity | discriminate H]).
+  assert (H127 : (c =? 127)%N = false) by (destruct (c =? 127)%N; [rewrite !andb_false_r in H; discriminate H | reflexivity]).
+  apply N.leb_le in H32.
+  assert (E3 : (c =? c_lf)%N = false) by (apply N.eqb_neq; unfold c_lf; lia).
+  assert (E4 : (c =? c_cr)%N = false) by (apply N.eqb_neq; unfold c_cr; lia).
+  assert (E5 : (c =? c_tab)%N = false) by (apply N.eqb_neq; unfold c_tab; lia).
+  assert (E6 : (c <? 32)%N = false) by (apply N.ltb_ge; exact H32).
+  rewrite E3, E4, E5, E6, H127. reflexivity.
+Qed.
+
+Lemma starts_with_split : forall p s : str, starts_with p s = true -> exists post, s = p ++ post.
+Proof.
+  induction p as [|x p IH]; intros s H; [exists s; reflexivity|].
+  destruct s as [|y s]; cbn [starts_with] in H; [discriminate|]. apply andb_true_iff in H. destruct H as [H1 H2].
+  apply N.eqb_eq in H1. subst y. destruct (IH s H2) as [post E]. exists post. rewrite E. reflexivity.
+Qed.
+
+Lemma contains_split : forall p s : str, contains p s = true -> exists pre post, s = pre ++ p ++ post.
+Proof.
+  intros p. induction s as [|c s IH]; intro H; cbn [contains] in H.
+  - destruct p; [exists [], []; reflexivity | discriminate].
+  - apply orb_true_iff in H. destruct H as [H|H].
+    + destruct (starts_with_split p (c :: s) H) as [post E]. exists [], post. exact E.
+    + destruct (IH H) as [pre [post E]]. exists (c :: pre), post. rewrite E. reflexivity.
+Qed.
+
+Lemma contains_app_r : forall p a b : str, contains p b = true -> contains p (a ++ b) = true.
+Proof.
+  intros p. induction a as [|c a IH]; intros b H; [exact H|].
+  cbn [app contains]. rewrite (IH b H). apply orb_true_r.
+Qed.
+
+Lemma starts_with_app_l : forall p a b : str, starts_with p a = true -> starts_with p (a ++ b) = true.
+Proof.
+  induction p as [|x p IH]; intros a b H; [reflexivity|].
+  destruct a as [|y a]; cbn [starts_with] in H; [discriminate|]. cbn [app starts_with].
+  apply andb_true_iff in H. destruct H as [H1 H2]. rewrite H1, (IH a b H2). reflexivity.
+Qed.
+
+Lemma contains_app_l : forall p a b : str, contains p a = true -> contains p (a ++ b) = true.
+Proof.
+  intros p. induction a as [|c a IH]; intros b H; cbn [contains] in H.
+  - destruct p; [|discriminate]. destruct b; reflexivity.
+  - cbn [app contains]. apply orb_true_iff in H. destruct H as [H|H].
+    + change (c :: a ++ b) with ((c :: a) ++ b). rewrite (starts_with_app_l p (c :: a) b H). reflexivity.
+    + rewrite (IH b H). apply orb_true_r.
+Qed.
+
+Lemma contains_mid : forall p pre post : str, contains p (pre ++ p ++ post) = true.
+Proof.
+  intros p pre post. apply contains_app_r. apply contains_app_l. apply contains_refl.
+Qed.
+
+Lemma flat_map_plain : forall q ph, plain_ph ph = true -> (q = c_sq \/ q = c_dq) -> @flat_map N N (repr_char q) ph = ph.
+Proof.
+  intros q. induction ph as [|c ph IH]; intros H Hq; [reflexivity|].
+  unfold plain_ph in H. cbn [forallb] in H. apply andb_true_iff in H. destruct H as [H1 H2].
+  cbn [flat_map]. rewrite (repr_char_plain q c H1 Hq), (IH H2 Hq). reflexivity.
+Qed.
+
+Lemma repr_str_contains : forall ph s, plain_ph ph = true -> contains ph s = true -> contains ph (py_repr_str s) = true.
+Proof.
+  intros ph s Hp H. destruct (contains_split ph s H) as [pre [post E]]. subst s. unfold py_repr_str. cbv zeta.
+  set (q := if has_char c_sq (pre ++ ph ++ post) && negb (has_char c_dq (pre ++ ph ++ post)) then c_dq else c_sq).
+  assert (Hq : q = c_sq \/ q = c_dq) by (unfold q; destruct (has_char c_sq _ && negb _); [right | left]; reflexivity).
+  rewrite !flat_map_app, (flat_map_plain q ph Hp Hq).
+  change (q :: (flat_map (repr_char q) pre ++ ph ++ flat_map (repr_char q) post) ++ [q])
+    with ([q] ++ (flat_map (repr_char q) pre ++ ph ++ flat_map (repr_char q) post) ++ [q]).
+  apply contains_app_r. apply contains_app_l. apply contains_mid.
+Qed.
+
+Lemma repr_scalar_contains : forall ph s, plain_ph ph = true -> contains ph (py_str s) = true ->
+  contains ph (py_repr_scalar s) = true.
+Proof.
+  intros ph s Hp H. destruct s; try exact H. cbn [py_repr_scalar]. apply repr_str_contains; assumption.
+Qed.
+
+(* the repr of a list / dict body *)
+Definition repr_list_body : list tree -> str :=
+  fix go (l : list tree) : str :=
+    match l with
+    | [] => []
+    | [c] => py_repr_tree c
+    | c :: l' => py_repr_tree c ++ [c_comma; c_sp] ++ go l'
+    end.
+Definition repr_dict_body : list (key * tree) -> str :=
+  fix go (l : list (key * tree)) : str :=
+    match l with
+    | [] => []
+    | [(k, c)] => py_repr_key k ++ [c_colon; c_sp] ++ py_repr_tree c
+    | (k, c) :: l' => py_repr_key k ++ [c_colon; c_sp] ++ py_repr_tree c ++ [c_comma; c_sp] ++ go l'
+    end.
+Lemma py_repr_lst : forall ts, py_repr_tree (Lst ts) = c_lbrk :: repr_list_body ts ++ [c_rbrk].
+Proof. reflexivity. Qed.
+Lemma py_repr_dict : forall kvs, py_repr_tree (Dict kvs) = c_lbrace :: repr_dict_body kvs ++ [c_rbrace].
+Proof. reflexivity. Qed.
+
+Lemma repr_tree_contains : forall ph, plain_ph ph = true -> forall t, (0 < bad ph t)%nat ->
+  contains ph (py_repr_tree t) = true.
+Proof.
+  intros ph Hp. induction t as [s|kvs IH|ts IH] using tree_ind'; intro Hb.
+  - cbn [bad] in Hb. cbn [py_repr_tree]. apply repr_scalar_contains; [exact Hp|].
+    destruct (contains ph (py_str s)); [reflexivity | lia].
+  - rewrite py_repr_dict. change (c_lbrace :: repr_dict_body kvs ++ [c_rbrace]) with ([c_lbrace] ++ repr_dict_body kvs ++ [c_rbrace]).
+    apply contains_app_r. apply contains_app_l.
+    cbn [bad] in Hb. induction IH as [|[k c] l Hc Hl IHl]; cbn [fold_right snd] in Hb; [lia|]. cbn [snd] in Hc.
+    assert (Hcase : (0 < bad ph c)%nat \/ (0 < fold_right (fun kv n => (bad ph (snd kv) + n)%nat) 0%nat l)%nat) by lia.
+    destruct l as [|kv2 l2].
+    + cbn [repr_dict_body]. destruct Hcase as [H|H]; [|cbn [fold_right] in H; lia].
+      apply contains_app_r. apply contains_app_r. apply Hc. exact H.
+    + change (repr_dict_body ((k, c) :: kv2 :: l2))
+        with (py_repr_key k ++ [c_colon; c_sp] ++ py_repr_tree c ++ [c_comma; c_sp] ++ repr_dict_body (kv2 :: l2)).
+      destruct Hcase as [H|H].
+      * apply contains_app_r. apply contains_app_r. apply contains_app_l. apply Hc. exact H.
+      * apply contains_app_r. apply contains_app_r. apply contains_app_r. apply contains_app_r. apply IHl. exact H.
+  - rewrite py_repr_lst. change (c_lbrk :: repr_list_body ts ++ [c_rbrk]) with ([c_lbrk] ++ repr_list_body ts ++ [c_rbrk]).
+    apply contains_app_r. apply contains_app_l.
+    cbn [bad] in Hb. induction IH as [|c l Hc Hl IHl]; cbn [fold_right] in Hb; [lia|].
+    assert (Hcase : (0 < bad ph c)%nat \/ (0 < fold_right (fun c n => (bad ph c + n)%nat) 0%nat l)%nat) by lia.
+    destruct l as [|c2 l2].
+    + cbn [repr_list_body]. destruct Hcase as [H|H]; [|cbn [fold_right] in H; lia]. apply Hc. exact H.
+    + change (repr_list_body (c :: c2 :: l2)) with (py_repr_tree c ++ [c_comma; c_sp] ++ repr_list_body (c2 :: l2)).
+      destruct Hcase as [H|H].
+      * apply contains_app_l. apply Hc. exact H.
+      * apply contains_app_r. apply contains_app_r. apply IHl. exact H.
+Qed.
+
+Lemma plain_dichotomy : forall ph v, plain_ph ph = true -> contains ph (py_str_tree v) = true \/ bad ph v = 0%nat.
+Proof.
+  intros ph v Hp. destruct (bad ph v) as [|n] eqn:E; [right; reflexivity|]. left.
+  destruct v as [s|kvs|ts].
+  - cbn [py_str_tree]. cbn [bad] in E. destruct (contains ph (py_str s)); [reflexivity | discriminate].
+  - cbn [py_str_tree]. apply repr_tree_contains; [exact Hp | lia].
+  - cbn [py_str_tree]. apply repr_tree_contains; [exact Hp | lia].
+Qed.
+
+Lemma leaf_dichotomy : forall ph s, contains ph (py_str_tree (Leaf s)) = true \/ bad ph (Leaf s) = 0%nat.
+Proof.
+  intros ph s. cbn [py_str_tree bad]. destruct (contains ph (py_str s)); [left | right]; reflexivity.
+Qed.
+
+(* C05_insert_terminates *)
+Theorem insert_terminates : forall ph v d, wf d = true -> wf v = true ->
+  (contains ph (py_str_tree v) = true \/ bad ph v = 0%nat) ->
+  insert_result (S (count_leaves d)) ph v d <> Raise E_Fuel.
+Proof.
+  intros ph v d Hw Hv Hd. apply insert_result_no_fuel_gen; try assumption.
+  pose proof (bad_le_leaves ph d). lia.
+Qed.
+
+Theorem insert_terminates_plain : forall ph v d, wf d = true -> wf v = true -> plain_ph ph = true ->
+  insert_result (S (count_leaves d)) ph v d <> Raise E_Fuel.
+Proof. intros ph v d Hw Hv Hp. apply insert_terminates; try assumption. apply plain_dichotomy. exact Hp. Qed.
+
+Theorem insert_terminates_leaf : forall ph s d, wf d = true ->
+  insert_result (S (count_leaves d)) ph (Leaf s) d <> Raise E_Fuel.
+Proof. intros ph s d Hw. apply insert_terminates; [exact Hw | reflexivity | apply leaf_dichotomy]. Qed.
+
+(* ---- everything a reference resolves to is well formed ---------------------------------------------------- *)
+Definition wfv (kv : key * tree) : Prop := wf (snd kv) = true.
+
+Lemma insert_expression_wf : forall v exprs, wf v = true -> wf (insert_expression v exprs) = true.
+Proof.
+  intros v exprs H. destruct v as [[z|l|b| |t]|kvs|ts]; cbn [insert_expression]; try exact H.
+  destruct (has_placeholder w_EXPRESSION t); [|exact H]. destruct (first_6digits t) as [i|]; [|exact H].
+  destruct (tlookup i exprs) as [[e ph]|]; [reflexivity | exact H].
+Qed.
+
+Definition vt_dict_step (exprs : list (N * expr_entry)) (kv : key * tree) (acc : vtab) : vtab :=
+  let (k, v) := kv in
+  let acc1 := match v with
+              | Dict _ => vars_tree exprs false v acc
+              | Lst _ => if list_contains_dict v then vars_tree exprs true v acc else acc
+              | Leaf _ => acc
+              end in
+  match k with
+  | KI _ => acc1
+  | KS name =>
+      match v with
+      | Lst _ => aset k v acc1
+      | _ => let v' := insert_expression v exprs in if circular k v' then acc1 else aset k v' acc1
+      end
+  end.
+Definition vt_lst_step (exprs : list (N * expr_entry)) (c : tree) (acc : vtab) : vtab :=
+  match c with
+  | Dict _ => vars_tree exprs false c acc
+  | Lst _ => vars_tree exprs true c acc
+  | Leaf _ => acc
+  end.
+
+Lemma vars_tree_dict : forall exprs b kvs acc,
+  vars_tree exprs b (Dict kvs) acc = fold_left (fun a kv => vt_dict_step exprs kv a) kvs acc.
+Proof.
+  intros exprs b kvs. induction kvs as [|[k v] l IH]; intro acc; [reflexivity|].
+  cbn [fold_left]. rewrite <- IH. reflexivity.
+Qed.
+Lemma vars_tree_lst : forall exprs b ts acc,
+  vars_tree exprs b (Lst ts) acc = fold_left (fun a c => vt_lst_step exprs c a) ts acc.
+Proof.
+  intros exprs b ts. induction ts as [|c l IH]; intro acc; [reflexivity|].
+  cbn [fold_left]. rewrite <- IH. reflexivity.
+Qed.
+
+Lemma vars_tree_wf : forall exprs t, wf t = true -> forall b acc, Forall wfv acc -> Forall wfv (vars_tree exprs b t acc).
+Proof.
+  intros exprs. induction t as [s|kvs IH|ts IH] using tree_ind'; intros Hw b acc Ha.
+  - exact Ha.
+  - rewrite vars_tree_dict. rewrite wf_dict in Hw. apply andb_true_iff in Hw. destruct Hw as [_ Hw].
+    revert acc Ha. induction IH as [|[k v] l Hv Hl IHl]; intros acc Ha; [exact Ha|].
+    cbn [forallb snd] in Hw. apply andb_true_iff in Hw. destruct Hw as [Hwv Hwl]. cbn [snd] in Hv.
+    cbn [fold_left]. apply (IHl Hwl). unfold vt_dict_step.
+    assert (H1 : Forall wfv (match v with
+                             | Dict _ => vars_tree exprs false v acc
+                             | Lst _ => if list_contains_dict v then vars_tree exprs true v acc else acc
+                             | Leaf _ => acc
+                             end)).
+    { destruct v as [s|kvs'|ts']; [exact Ha | apply (Hv Hwv); exact Ha|].
+      destruct (list_contains_dict (Lst ts')); [apply (Hv Hwv); exact Ha | exact Ha]. }
+    destruct k as [z|name]; [exact H1|].
+    destruct v as [s|kvs'|ts'].
+    + cbv zeta. destruct (circular (KS name) (insert_expression (Leaf s) exprs)); [exact H1|].
+      apply aset_Forall; [|exact H1]. unfold wfv. cbn [snd]. apply insert_expression_wf. exact Hwv.
+    + cbv zeta. destruct (circular (KS name) (insert_expression (Dict kvs') exprs)); [exact H1|].
+      apply aset_Forall; [|exact H1]. unfold wfv. cbn [snd]. apply insert_expression_wf. exact Hwv.
+    + apply aset_Forall; [|exact H1]. exact Hwv.
+  - rewrite vars_tree_lst. rewrite wf_lst in Hw.
+    revert acc Ha. induction IH as [|c l Hc Hl IHl]; intros acc Ha; [exact Ha|].
+    cbn [forallb] in Hw. apply andb_true_iff in Hw. destruct Hw as [Hwc Hwl].
+    cbn [fold_left]. apply (IHl Hwl). unfold vt_lst_step.
+    destruct c as [s|kvs'|ts']; [exact Ha | apply (Hc Hwc); exact Ha | apply (Hc Hwc); exact Ha].
+Qed.
+
+Lemma variables_wf : forall s, wf (Dict (sd_data s)) = true -> Forall wfv (variables_of s).
+Proof. intros s H. unfold variables_of. apply vars_tree_wf; [exact H | constructor]. Qed.
+
+Lemma index_tree_wf : forall idx t t', wf t = true -> index_tree t idx = Some t' -> wf t' = true.
+Proof.
+  induction idx as [|i idx IH]; intros t t' Hw H; cbn [index_tree] in H; [inversion H; subst; exact Hw|].
+  destruct t as [s|kvs|ts]; [|discriminate|].
+  - destruct s as [z|l|b| |s]; try discriminate.
+    destruct (norm_index i (length s)) as [n|]; [|discriminate]. destruct (nth_error s n) as [c|]; [|discriminate].
+    apply (IH _ _ (eq_refl : wf (Leaf (SStr [c])) = true) H).
+  - destruct (norm_index i (length ts)) as [n|]; [|discriminate]. destruct (nth_error ts n) as [c|] eqn:En; [|discriminate].
+    apply (IH c t'); [|exact H]. rewrite wf_lst in Hw. rewrite forallb_forall in Hw. apply Hw. eapply nth_error_In. exact En.
+Qed.
+
+Lemma chase_wf : forall rr, (forall r2 t, rr r2 = RVal t -> wf t = true) ->
+  forall g t lr tried t', wf t = true -> fst (chase_f rr g (Some t) lr tried) = RVal t' -> wf t' = true.
+Proof.
+  intros rr Hrr. induction g as [|g IH]; intros t lr tried t' Hw H; cbn [chase_f] in H; [cbn [fst] in H; discriminate|].
+  destruct (tree_has_dollar t); [|cbn [fst] in H; inversion H; subst; exact Hw].
+  cbv zeta in H. destruct (existsb (str_eqb (py_str_tree t)) tried); [cbn [fst] in H; discriminate|].
+  destruct (negb (is_plain_reference (py_str_tree t))); [cbn [fst] in H; discriminate|].
+  destruct (rr (py_str_tree t)) as [|t1| |] eqn:Er; try (cbn [fst] in H; discriminate).
+  apply (IH t1 _ _ t' (Hrr _ _ Er) H).
+Qed.
+
+Lemma resolve_tail_wf : forall r val lr t', (forall t, val = RVal t -> wf t = true) ->
+  resolve_tail r (val, lr) = RVal t' -> wf t' = true.
+Proof.
+  intros r val lr t' Hv H. unfold resolve_tail in H.
+  destruct val as [|t0| |]; try discriminate.
+  - destruct (ref_indexing r) as [|x ix]; [discriminate|].
+    destruct (parse_indices (S (length (x :: ix))) (x :: ix)); discriminate.
+  - destruct (ref_indexing r) as [|x ix]; [inversion H; subst; apply Hv; reflexivity|].
+    destruct (parse_indices (S (length (x :: ix))) (x :: ix)) as [idx|]; [|discriminate].
+    destruct (index_tree t0 idx) as [ti|] eqn:Ei; inversion H; subst.
+    + apply (index_tree_wf idx t0 t' (Hv t0 eq_refl) Ei).
+    + apply Hv. reflexivity.
+Qed.
+
+Lemma resolve_ref_wf : forall vars, Forall wfv vars -> forall fuel seen r t,
+  resolve_ref fuel vars seen r = RVal t -> wf t = true.
+Proof.
+  intros vars Hv. induction fuel as [|f IH]; intros seen r t H; [discriminate|].
+  rewrite resolve_ref_S in H. cbv zeta in H.
+  destruct (existsb (str_eqb (ref_name r)) seen); [discriminate|].
+  destruct (alookup (KS (ref_name r)) vars) as [v0|] eqn:Ea; [|discriminate].
+  assert (Hw0 : wf v0 = true).
+  { apply SDictProofs.alookup_Some_In in Ea. rewrite Forall_forall in Hv. apply (Hv _ Ea). }
+  destruct (chase_f (resolve_ref f vars (seen ++ [ref_name r])) (S (vars_size vars)) (Some v0) None []) as [val lr] eqn:Ec.
+  apply (resolve_tail_wf r val lr t); [|exact H].
+  intros t1 E. subst val.
+  apply (chase_wf (resolve_ref f vars (seen ++ [ref_name r])) (fun r2 t2 => IH _ r2 t2) (S (vars_size vars)) v0 None [] t1 Hw0).
+  rewrite Ec. reflexivity.
+Qed.
+
+Lemma usable_val : forall r t, usable r = Some t -> r = RVal t.
+Proof.
+  intros r t H. destruct r as [|t0| |]; try discriminate. unfold usable in H.
+  destruct (has_char c_dollar (py_str_tree t0) || contains w_EXPRESSION (py_str_tree t0)); [discriminate|].
+  destruct t0 as [[]| |]; inversion H; reflexivity.
+Qed.
+
+Lemma resolve_all_wf : forall s resolved u, wf (Dict (sd_data s)) = true -> resolve_all s = Some (resolved, u) ->
+  Forall (fun p : str * tree => wf (snd p) = true) resolved.
+Proof.
+  intros s resolved u Hw H. rewrite resolve_all_body in H. unfold resolve_body in H.
+  destruct (existsb _ _); [discriminate|]. inversion H; subst. clear H.
+  apply Forall_forall. intros [r t] Hin. apply in_flat_map in Hin. destruct Hin as [[r' o] [Hin1 Hin2]].
+  cbn [fst snd] in Hin2. destruct o as [t'|]; [|contradiction]. destruct Hin2 as [E|[]]. inversion E; subst r' t'.
+  apply in_map_iff in Hin1. destruct Hin1 as [[r2 rr] [E1 Hin1]]. cbn [fst snd] in E1. injection E1 as Er Eu.
+  apply in_map_iff in Hin1. destruct Hin1 as [r3 [E2 _]]. injection E2 as E3 E4. subst r3 r2 rr.
+  cbn [snd]. apply usable_val in Eu.
+  apply (resolve_ref_wf (variables_of s) (variables_wf s Hw) _ [] r t Eu).
+Qed.
+
+(* ---- eval_expressions never answers E_Fuel ------------------------------------------------------------------ *)
+(* unique keys at every level; the placeholders of the table are made of ordinary characters *)
+Definition good_sd (s : sdict) : Prop :=
+  wf (Dict (sd_data s)) = true /\ Forall (fun e : N * expr_entry => plain_ph (snd (snd e)) = true) (sd_expr s).
+Definition ok_acc (acc : option (res sdict)) : Prop :=
+  match acc with
+  | Some (Ok st) => good_sd st
+  | Some (Raise e) => e <> E_Fuel
+  | None => True
+  end.
+
+Lemma Forall_tdel : forall {V} (P : N * V -> Prop) i l, Forall P l -> Forall P (tdel i l).
+Proof.
+  intros V P i. induction l as [|[j v] l IH]; intro H; cbn [tdel]; [constructor|].
+  inversion H as [|? ? Hj Hl]; subst. destruct (N.eqb i j); [exact Hl | constructor; [exact Hj | apply IH; exact Hl]].
+Qed.
+Lemma Forall_tset : forall {V} (P : N * V -> Prop) i v l, (forall j, P (j, v)) -> Forall P l -> Forall P (tset i v l).
+Proof.
+  intros V P i v. induction l as [|[j w] l IH]; intros Hv H; cbn [tset]; [constructor; [apply Hv | constructor]|].
+  inversion H as [|? ? Hj Hl]; subst. destruct (N.eqb i j); constructor; try assumption; [apply Hv | apply IH; assumption].
+Qed.
+
+Lemma rlookup_in : forall r (tab : list (str * tree)) t, rlookup r tab = Some t -> exists q, In (q, t) tab.
+Proof.
+  intros r. induction tab as [|[q t0] tab IH]; intros t H; cbn [rlookup] in H; [discriminate|].
+  destruct (str_eqb r q); [inversion H; subst; exists q; left; reflexivity|].
+  destruct (IH t H) as [q' Hq]. exists q'. right. exact Hq.
+Qed.
+
+Lemma insert_step_ok : forall st key ph v, good_sd st -> wf v = true ->
+  (contains ph (py_str_tree v) = true \/ bad ph v = 0%nat) ->
+  ok_acc (match insert_result (S (count_leaves (Dict (sd_data st)))) ph v (Dict (sd_data st)) with
+          | Ok (Dict d') => Some (Ok (mkSD d' (sd_lc st) (sd_bc st) (sd_inc st) (tdel key (sd_expr st))))
+          | Ok _ => Some (Ok st)
+          | Raise er => Some (Raise er)
+          end).
+Proof.
+  intros st key ph v [Hw Hp] Hv Hd.
+  pose proof (insert_terminates ph v (Dict (sd_data st)) Hw Hv Hd) as Hnf.
+  destruct (insert_result (S (count_leaves (Dict (sd_data st)))) ph v (Dict (sd_data st))) as [t|er] eqn:Ei.
+  - pose proof (insert_result_wf _ _ _ _ _ Hw Hv Ei) as Hwt.
+    destruct t as [s|d'|ts]; cbn [ok_acc]; try (split; assumption).
+    split; [exact Hwt | cbn [sd_expr]; apply Forall_tdel; exact Hp].
+  - cbn [ok_acc]. intro E. subst er. apply Hnf. reflexivity.
+Qed.
+
+Lemma pass_step_ok : forall resolved acc e, Forall (fun p : str * tree => wf (snd p) = true) resolved ->
+  plain_ph (snd (snd e)) = true -> ok_acc acc -> ok_acc (pass_step resolved acc e).
+Proof.
+  intros resolved acc [key [e0 ph]] Hr Hph Hacc. cbn [snd] in Hph.
+  destruct acc as [[st|er]|]; [|exact Hacc|exact Hacc]. cbn [ok_acc] in Hacc. cbn [pass_step].
+  destruct (if is_plain_reference (strip e0) then rlookup (strip e0) resolved else None) as [t|] eqn:Ep.
+  - assert (Hwt : wf t = true).
+    { destruct (is_plain_reference (strip e0)); [|discriminate]. destruct (rlookup_in _ _ _ Ep) as [q Hq].
+      rewrite Forall_forall in Hr. apply (Hr _ Hq). }
+    apply insert_step_ok; [exact Hacc | exact Hwt | apply plain_dichotomy; exact Hph].
+  - destruct (has_char c_dollar (substitute resolved e0)).
+    + cbn [ok_acc]. destruct Hacc as [Hw Hp]. split; [exact Hw|]. cbn [sd_expr sd_data].
+      apply Forall_tset; [intro j; exact Hph | exact Hp].
+    + destruct (pyeval (substitute resolved e0)) as [z| |].
+      * apply insert_step_ok; [exact Hacc | reflexivity | apply leaf_dichotomy].
+      * cbn [ok_acc]. destruct Hacc as [Hw Hp]. split; [exact Hw|]. cbn [sd_expr sd_data].
+        apply Forall_tset; [intro j; exact Hph | exact Hp].
+      * exact I.
+Qed.
+
+Lemma eval_pass_ok : forall resolved s, Forall (fun p : str * tree => wf (snd p) = true) resolved -> good_sd s ->
+  ok_acc (eval_pass resolved s).
+Proof.
+  intros resolved s Hr Hg. rewrite eval_pass_fold.
+  assert (G : forall l acc, Forall (fun e : N * expr_entry => plain_ph (snd (snd e)) = true) l -> ok_acc acc ->
+              ok_acc (fold_left (pass_step resolved) l acc)).
+  { induction l as [|e l IH]; intros acc Hl Hacc; [exact Hacc|]. inversion Hl as [|? ? He Hl']; subst.
+    cbn [fold_left]. apply IH; [exact Hl'|]. apply pass_step_ok; assumption. }
+  apply G; [apply Hg | exact Hg].
+Qed.
+
+Lemma eval_loop_ok : forall f s resolved u, (S u <= f)%nat ->
+  Forall (fun p : str * tree => wf (snd p) = true) resolved -> good_sd s -> ok_acc (eval_loop f s resolved u).
+Proof.
+  induction f as [|f IH]; intros s resolved u Hf Hr Hg; [lia|]. cbn [eval_loop].
+  pose proof (eval_pass_ok resolved s Hr Hg) as Hp.
+  destruct (eval_pass resolved s) as [[s'|er]|]; [|exact Hp|exact I].
+  cbn [ok_acc] in Hp. destruct (resolve_all s') as [[r' u']|] eqn:Era; [|exact I].
+  destruct (Nat.ltb u' u) eqn:E; [|exact Hp]. apply Nat.ltb_lt in E.
+  apply IH; [lia | apply (resolve_all_wf s' r' u' (proj1 Hp) Era) | exact Hp].
+Qed.
+
+Lemma back_insert_ok : forall s, good_sd s -> back_insert s <> Raise E_Fuel.
+Proof.
+  intros s [Hw _]. rewrite back_insert_fold.
+  assert (G : forall l (acc : res (list (key * tree))),
+              match acc with Ok dd => wf (Dict dd) = true | Raise e => e <> E_Fuel end ->
+              match fold_left bi_step l acc with Ok dd => wf (Dict dd) = true | Raise e => e <> E_Fuel end).
+  { induction l as [|[key [e0 ph]] l IH]; intros acc Hacc; [exact Hacc|]. cbn [fold_left]. apply IH.
+    destruct acc as [dd|er]; [|exact Hacc]. cbn [bi_step bind].
+    pose proof (insert_terminates_leaf ph (SStr e0) (Dict dd) Hacc) as Hnf.
+    destruct (insert_result (S (count_leaves (Dict dd))) ph (Leaf (SStr e0)) (Dict dd)) as [t|er] eqn:Ei; cbn [bind].
+    - pose proof (insert_result_wf _ _ _ _ _ Hacc (eq_refl : wf (Leaf (SStr e0)) = true) Ei) as Hwt.
+      destruct t as [x|d'|ts]; [exact Hacc | exact Hwt | exact Hacc].
+    - intro E. subst er. apply Hnf. reflexivity. }
+  pose proof (G (sd_expr s) (Ok (sd_data s)) Hw) as H.
+  destruct (fold_left bi_step (sd_expr s) (Ok (sd_data s))) as [dd|er]; cbn [bind]; [discriminate|].
+  intro E. inversion E. contradiction.
+Qed.
+
+Theorem eval_expressions_no_fuel : forall s, good_sd s -> eval_expressions s <> Some (Raise E_Fuel).
+Proof.
+  intros s Hg. unfold eval_expressions. destruct (resolve_all s) as [[resolved u]|] eqn:Er; [|discriminate].
+  pose proof (eval_loop_ok (S (S u)) s resolved u ltac:(lia) (resolve_all_wf s resolved u (proj1 Hg) Er) Hg) as Hl.
+  destruct (eval_loop (S (S u)) s resolved u) as [[s'|er]|]; [| |discriminate].
+  - cbn [ok_acc] in Hl. intro E. inversion E as [Hb]. exact (back_insert_ok s' Hl Hb).
+  - cbn [ok_acc] in Hl. intro E. inversion E. contradiction.
+Qed.
+
+Lemma ph_of_plain : forall i, (i < 1000000)%N -> plain_ph (ph_of i) = true.
+Proof.
+  intros i Hi. unfold ph_of, placeholder, plain_ph. rewrite forallb_app. apply andb_true_iff. split; [reflexivity|].
+  destruct (pad6_props i Hi) as [Hd _]. apply forallb_forall. intros c Hc. rewrite Forall_forall in Hd.
+  specialize (Hd c Hc). unfold is_digit in Hd. apply andb_true_iff in Hd. destruct Hd as [H1 H2].
+  apply N.leb_le in H1. apply N.leb_le in H2. unfold plain_char.
+  assert (E1 : (32 <=? c)%N = true) by (apply N.leb_le; lia).
+  assert (E2 : (c =? 127)%N = false) by (apply N.eqb_neq; lia).
+  assert (E3 : (c =? c_bsl)%N = false) by (apply N.eqb_neq; unfold c_bsl; lia).
+  assert (E4 : (c =? c_sq)%N = false) by (apply N.eqb_neq; unfold c_sq; lia).
+  assert (E5 : (c =? c_dq)%N = false) by (apply N.eqb_neq; unfold c_dq; lia).
+  rewrite E1, E2, E3, E4, E5. reflexivity.
+Qed.
+
+(* ---- flat documents: reading terminates normally, whatever the names are -------------------------------------- *)
+Definition leafkv (kv : key * tree) : Prop := exists s, snd kv = Leaf s.
+
+Lemma flat_path_one : forall l p s, Forall leafkv l -> p <> [] -> get_path (Dict l) p = Some (Leaf s) -> exists k, p = [k].
+Proof.
+  intros l p s Hl Hne Hg. destruct p as [|k p]; [contradiction|]. exists k. f_equal.
+  cbn [get_path child] in Hg. destruct (alookup k l) as [c|] eqn:Ea; [|discriminate].
+  apply SDictProofs.alookup_Some_In in Ea. rewrite Forall_forall in Hl. destruct (Hl _ Ea) as [s0 Es]. cbn [snd] in Es. subst c.
+  destruct p as [|k2 p]; [reflexivity|]. cbn [get_path child] in Hg. discriminate.
+Qed.
+
+Lemma insert_result_flat_ok : forall fuel ph sv l, wf (Dict l) = true -> Forall leafkv l ->
+  (exists l', insert_result fuel ph (Leaf sv) (Dict l) = Ok (Dict l') /\ wf (Dict l') = true /\ Forall leafkv l' /\
+              map fst l' = map fst l) \/
+  insert_result fuel ph (Leaf sv) (Dict l) = Raise E_Fuel.
+Proof.
+  induction fuel as [|f IH]; intros ph sv l Hw Hl; [right; reflexivity|]. rewrite insert_result_S.
+  destruct (find_global_key ph (Dict l)) as [p|] eqn:Ef; [|left; exists l; repeat split; assumption].
+  destruct (find_sound ph (Dict l) p Hw Ef) as [s [Hg _]].
+  destruct (flat_path_one l p s Hl (find_global_nonempty _ _ _ Ef) Hg) as [k Ek]. subst p.
+  unfold set_global_key. cbn [set_at set_child bind].
+  assert (Hw1 : wf (Dict (aset k (Leaf sv) l)) = true) by (apply aset_wf; [reflexivity | exact Hw]).
+  assert (Hl1 : Forall leafkv (aset k (Leaf sv) l)) by (apply aset_Forall; [exists sv; reflexivity | exact Hl]).
+  assert (Hk1 : map fst (aset k (Leaf sv) l) = map fst l).
+  { cbn [get_path child] in Hg. destruct (alookup k l) as [c|] eqn:Ea; [|discriminate].
+    apply (aset_keys_present k (Leaf sv) c l Ea). }
+  destruct (contains ph (py_str_tree (Leaf sv))); [left; exists (aset k (Leaf sv) l); repeat split; assumption|].
+  destruct (IH ph sv (aset k (Leaf sv) l) Hw1 Hl1) as [[l' [E [H1 [H2 H3]]]]|E]; [|right; exact E].
+  left. exists l'. repeat split; try assumption. rewrite H3. exact Hk1.
+Qed.
+
+Lemma back_insert_flat_ok : forall s, wf (Dict (sd_data s)) = true -> Forall leafkv (sd_data s) ->
+  exists dd, back_insert s = Ok (mkSD dd (sd_lc s) (sd_bc s) (sd_inc s) []) /\ map fst dd = map fst (sd_data s) /\
+             Forall leafkv dd.
+Proof.
+  intros s Hw Hl. rewrite back_insert_fold.
+  assert (G : forall l dd, wf (Dict dd) = true -> Forall leafkv dd ->
+              exists dd', fold_left bi_step l (Ok dd) = Ok dd' /\ map fst dd' = map fst dd /\ Forall leafkv dd').
+  { induction l as [|[key [e0 ph]] l IH]; intros dd Hwd Hld; [exists dd; repeat split; assumption|].
+    cbn [fold_left bi_step bind].
+    destruct (insert_result_flat_ok (S (count_leaves (Dict dd))) ph (SStr e0) dd Hwd Hld) as [[l' [E [H1 [H2 H3]]]]|E].
+    - rewrite E. cbn [bind]. destruct (IH l' H1 H2) as [dd' [E' [K1 K2]]]. exists dd'. repeat split; try assumption.
+      rewrite K1. exact H3.
+    - exfalso. exact (insert_terminates_leaf ph (SStr e0) (Dict dd) Hwd E). }
+  destruct (G (sd_expr s) (sd_data s) Hw Hl) as [dd [E [K1 K2]]]. exists dd. rewrite E. repeat split; assumption.
+Qed.
+
+Theorem flat_terminates : forall d lc bc inc, fdoc_ok d ->
+  exists s', eval_expressions (flat_sdict d lc bc inc) = Some (Ok s') /\ sd_expr s' = [] /\
+             map fst (sd_data s') = map KS (map fst d).
+Proof.
+  intros d lc bc inc Hok. destruct (eval_expressions_flat d lc bc inc Hok) as [m [_ He]].
+  set (st := St d lc bc inc (S m)) in *.
+  assert (Hw : wf (Dict (sd_data st)) = true).
+  { unfold st, St, fstate. cbn [sd_data]. apply wf_Dict_iff. split; [apply fdata_nodup; apply Hok|].
+    apply Forall_forall. intros kv Hin. pose proof (fdata_flat d (know d (S (S m)))) as Hf. unfold flat_kvs in Hf.
+    rewrite Forall_forall in Hf. destruct (Hf kv Hin) as [_ [s Es]]. unfold wfkv. rewrite Es. reflexivity. }
+  assert (Hl : Forall leafkv (sd_data st)).
+  { unfold st, St, fstate. cbn [sd_data]. pose proof (fdata_flat d (know d (S (S m)))) as Hf. unfold flat_kvs in Hf.
+    eapply Forall_impl; [|exact Hf]. intros kv [_ H]. exact H. }
+  destruct (back_insert_flat_ok st Hw Hl) as [dd [E [K1 _]]].
+  eexists. split; [rewrite He, E; reflexivity|]. cbn [sd_expr sd_data]. split; [reflexivity|].
+  rewrite K1. unfold st, St, fstate. cbn [sd_data]. apply fdata_keys.
+Qed.
